@@ -16,7 +16,7 @@ ASSUMPTIONS = [
     "delivery model: per-channel FIFO interleavings (sleep-set reduced) for A-Max-Sum on the pair; synchronous rounds for Max-Sum (canonical schedule: the mixin makes the round structure schedule-independent, which C08 checks)",
 ]
 BOUNDS = {
-    "quick": "single binary factor (pair), min and max, domain 2: Max-Sum 8 rounds (canonical schedule), A-Max-Sum all FIFO schedules up to 60 deliveries; pair with unary factor",
+    "quick": "the stability cut-off approx_match on symbolic cost messages (domain 2-3); single binary factor (pair), min and max, domain 2: Max-Sum 8 rounds (canonical schedule), A-Max-Sum all FIFO schedules up to 60 deliveries; pair with unary factor",
     "thorough": "quick + chain-3 (Max-Sum, 10 rounds, canonical schedule), star-3, pair with domain 3 (rational model), A-Max-Sum chain-3 canonical schedule",
 }
 OUTSIDE = "more than 4 variables, cyclic graphs, float rounding at domain size 3, damping/noise other than 0"
@@ -37,6 +37,8 @@ def jobs(tier):
                         "fixed": True})
             out.append({"name": "amaxsum-pairunary-%s" % mode, "algo": "amaxsum", "spec": spec("pair_unary", mode), "steps": 80,
                         "fixed": True})
+    for dom in (2, 3):
+        out.append({"name": "approx_match-d%d" % dom, "kernel": "approx_match", "dom": dom})
     if tier == "thorough":
         out.append({"name": "maxsum-star3-min", "algo": "maxsum", "spec": spec("star3", "min"), "rounds": 10, "fixed": True})
         out.append({"name": "maxsum-pair-dom3-min", "algo": "maxsum", "spec": spec("pair", "min", dom=3), "rounds": 8, "fixed": True})
@@ -44,6 +46,8 @@ def jobs(tier):
 
 
 def run(eng, p):
+    if p.get("kernel") == "approx_match":
+        return run_approx_match(eng, p)
     algo = p["algo"]
     mods = ["pydcop.algorithms.maxsum", "pydcop.infrastructure.computations", "pydcop.dcop.objects"]
     if algo == "amaxsum":
@@ -77,3 +81,32 @@ def run(eng, p):
     eng.notes["outcome"] = {"status": status, "values": values, "optimum": star, "steps": bench.steps}
     eng.prove(values == star, "selected assignment is not the unique optimum after the delivery budget", regions=regs,
               detail=str(eng.notes["outcome"]))
+
+
+# ---------------------------------------------------------------------------------------------------------------------
+# kernel job: the stability cut-off (anchor "approx_match and SAME_COUNT") decided directly on symbolic cost messages
+def run_approx_match(eng, p):
+    begin(eng, numpy_facade=False)
+    from pydcop.algorithms.maxsum import approx_match
+    n = p["dom"]
+    coef = 0.1
+    prev_none = eng.choose(2, "prev_is_none") == 0 and p.get("allow_none", True)
+    costs = {d: eng.sym_real("c_%d" % d, -LIM, LIM) for d in range(n)}
+    if prev_none:
+        got = approx_match(costs, None, coef)
+        eng.notes["outcome"] = {"prev": None, "got": got}
+        eng.prove(got is False, "approx_match(costs, None) must be False")
+        return
+    prev = {d: eng.sym_real("p_%d" % d, -LIM, LIM) for d in range(n)}
+    got = approx_match(costs, prev, coef)
+    eng.notes["outcome"] = {"got": bool(got)}
+    conds = []
+    for d in range(n):
+        same = F.eq(prev[d], costs[d])
+        s = prev[d] + costs[d]
+        delta = abs(prev[d] - costs[d])
+        close = F.and_(F.ne(s, 0), F.lt(2 * delta, coef * abs(s)))
+        conds.append(F.or_(same, close))
+    expected = F.and_(conds)
+    eng.prove(F.iff(expected, bool(got)), "approx_match does not implement 'every entry equal or within the relative stability "
+              "tolerance' (a message that differs, e.g. by a sign flip, would be treated as a repeat and cut off)")
